@@ -193,6 +193,10 @@ Definition parse_entry (root : ty) (o : out) (column : str) (c : cellv) : res ou
   find_assign (split_char c_dot (get_field_name column)) root o c.
 
 (* ---- header re-keying with row context -------------------------------------------- *)
+(* the key the row-type cell is looked up under: the raw cell, or the cell as the row parser
+   itself reads it (stripped) — which of the two the tree does is a probed constant *)
+Definition sw_key (cx : ctxremap) (rt : str) : str := if cx_sw_strip cx then strip rt else rt.
+
 Definition ctx_h2f (cx : option ctxremap) (cells : list (str * str)) (k : str) : res str :=
   match cx with
   | None => Ok k
@@ -203,7 +207,7 @@ Definition ctx_h2f (cx : option ctxremap) (cells : list (str * str)) (k : str) :
       if str_eqb k (cx_sw_header cx) then
         match oget str_eqb cells (cx_sw_column cx) with
         | None => Err EKey
-        | Some rt => match oget str_eqb (cx_sw_table cx) rt with
+        | Some rt => match oget str_eqb (cx_sw_table cx) (sw_key cx rt) with
                      | Some f => Ok f
                      | None => Err EKey
                      end
